@@ -90,6 +90,23 @@ def determinism(prop, n=200) -> int:
 # ------------------------------------------------------------------------------- sensitivity
 # (name, relative file, old text, new text, expected: 'caught' | 'quiet')
 MUTANTS = {
+    "C10": [
+        ("cache-key-without-asmodel", "tatsu/api/api.py", "key = (name, hasha(grammar), id(semantics), asmodel, settings_key)", "key = (name, hasha(grammar), id(semantics), settings_key)", "caught"),
+        ("cache-key-without-settings", "tatsu/api/api.py", "key = (name, hasha(grammar), id(semantics), asmodel, settings_key)", "key = (name, hasha(grammar), id(semantics), asmodel)", "caught"),
+        ("cache-key-without-name", "tatsu/api/api.py", "key = (name, hasha(grammar), id(semantics), asmodel, settings_key)", "key = (hasha(grammar), id(semantics), asmodel, settings_key)", "caught"),
+        ("synthesize-ignores-bases", "tatsu/objectmodel/synth.py", "if isinstance(found, type) and found.__bases__ == bases:", "if isinstance(found, type):", "caught"),
+        ("bound-cleanup-only-on-success", "tatsu/contexts/engine.py", "        finally:\n            self._initialize_caches()\n            self._active_config = self._config", "        else:\n            self._initialize_caches()\n            self._active_config = self._config", "caught"),
+        ("override-returns-self", "tatsu/util/configs.py", "        assert dataclasses.is_dataclass(self)\n        return dataclasses.replace(self, **overrides)", "        if not overrides:\n            return self\n        return dataclasses.replace(self, **overrides)", "caught"),
+        ("parse-config-stored-on-model", "tatsu/peg/base.py", "        config = self.config.override_config(config)\n        assert isinstance(config, ParserConfig)\n        # NOTE: bw-comp", "        config = self._config = self.config.override_config(config)\n        assert isinstance(config, ParserConfig)\n        # NOTE: bw-comp", "caught"),
+        ("shared-parse-context", "tatsu/peg/base.py", "        return ModelContext(self.rules, config=self.config, asmodel=asmodel)", "        if not hasattr(self, '_ctx_cached'):\n            self._ctx_cached = ModelContext(self.rules, config=self.config, asmodel=asmodel)\n        return self._ctx_cached", "caught"),
+        ("semantic-action-cache-by-name", "tatsu/contexts/core.py", "        return find_cached_semantic_action(self.semantics, name)", "        cache = globals().setdefault('_ACTION_CACHE', {})\n        if name not in cache:\n            cache[name] = find_cached_semantic_action(self.semantics, name)\n        return cache[name]", "caught"),
+        ("global-default-builder", "tatsu/peg/base.py", "            self.config.semantics = ModelBuilderSemantics()\n\n        self._rulemap", "            self.config.semantics = globals().setdefault('_SHARED_BUILDER', ModelBuilderSemantics())\n\n        self._rulemap", "caught"),
+        ("no-synth-lock", "tatsu/objectmodel/synth.py", "    with __registry_lock:\n", "    if True:\n", "caught-thorough"),
+        ("no-optimize-lock", "tatsu/peg/base.py", "        with _optimize_lock:\n            if isinstance(self._optimized, Grammar):", "        if True:\n            if isinstance(self._optimized, Grammar):", "caught-thorough"),
+        # negative controls
+        ("NC-no-compile-cache", "tatsu/api/api.py", "    if key in cache and not (asmodel and custom_builder):", "    if False:", "quiet"),
+        ("NC-optimized-not-cached", "tatsu/peg/base.py", "            self._optimized = new  # NOTE cache optimized grammar\n", "            pass\n", "quiet"),
+    ],
     "C19": [
         ("told-before-newline-check", "tatsu/packetz/queue.py", """                if not raw.endswith(b"\\n"):
                     break
@@ -181,7 +198,13 @@ def sensitivity(prop, only=None) -> int:
             open(path, "w").write(src.replace(old, new))
             env = dict(os.environ, VERIF_REPO=d, VERIF_EVIDENCE_DIR=os.path.join(d, "evidence"), VERIF_REPLAY_DIR=os.path.join(d, "replays"))
             t0 = time.time()
-            p = subprocess.run([os.path.join(VERIF, "check"), prop, "--tier", "quick"], env=env, capture_output=True, text=True, timeout=1800)
+            cmd = [os.path.join(VERIF, "check"), prop, "--tier", "quick"]
+            if expect == "caught-thorough":
+                # needs a particular interleaving inside a short window: thread schedules only, more of them
+                env["VERIF_C10_MODE"] = "threads"
+                cmd = [os.path.join(VERIF, "check"), prop, "--runs", "6000", "--wall", "900"]
+                expect = "caught"
+            p = subprocess.run(cmd, env=env, capture_output=True, text=True, timeout=3600)
             got = "caught" if (p.returncode == 1 and "VIOLATION property=" in p.stdout) else ("quiet" if p.returncode == 0 else f"error({p.returncode})")
             sig = [l.strip() for l in p.stdout.splitlines() if l.strip().startswith("signature=")]
             rows.append((name, expect, got, round(time.time() - t0, 1), sig[:1]))
